@@ -157,7 +157,7 @@ pub fn epoll(arg: &str) -> String {
             "r" => {
                 let i = idx(rest);
                 if let Some(Some(c)) = conns.get_mut(i) {
-                    match read_response(c, &mut pend[i], Duration::from_millis(1500)) {
+                    match read_response(c, &mut pend[i], Duration::from_millis(4000)) {
                         Ok(Some((st, close, body))) => trs[i].push(format!("R{}:{}:{}", st, close as u8, hex(&body))),
                         Ok(None) => trs[i].push("EOF".into()),
                         Err(e) => trs[i].push(e.into()),
@@ -200,7 +200,14 @@ pub fn epoll(arg: &str) -> String {
         }
     }
     // quiesce, then take the census BEFORE stopping (StopAccepting abandons whatever is still open: known finding)
-    std::thread::sleep(Duration::from_millis(60));
+    // (wait until the server has released what it is going to release — at most 1.5 s — rather than a fixed pause: under
+    // load a worker may still be on its way through the close path)
+    let tq = Instant::now();
+    std::thread::sleep(Duration::from_millis(20));
+    while crate::live_records() - live0 > 0 && tq.elapsed() < Duration::from_millis(1500) {
+        std::thread::sleep(Duration::from_millis(2));
+    }
+    std::thread::sleep(Duration::from_millis(10));
     let live_before = crate::live_records() - live0;
     stop.store(true, Ordering::SeqCst);
     let _ = TcpStream::connect(("127.0.0.1", port));
